@@ -390,7 +390,7 @@ def cbName (s : Stack) : Cb → String
   | .taskStep tid => taskName s tid
   | .sleepDone _ => "sleep"
 
-def fmtState (s : Stack) (from_ : Nat) (slogFrom : Nat := 0) : String :=
+def fmtState (s : Stack) (from_ : Nat) (slogFrom : Nat := 0) (txFrom : Nat := 0) : String :=
   let outs := (s.outs.drop from_).map fmtOut
   let ready := s.loop.ready.map fun r => cbName s r.cb
   let timers := (s.loop.timers.map fun t => (t.deadline, t.seq, cbName s t.cb))
@@ -402,7 +402,8 @@ def fmtState (s : Stack) (from_ : Nat) (slogFrom : Nat := 0) : String :=
   let slog := (s.storeLog.drop slogFrom).map fun (o, k, a) => s!"{if o then "+" else "-"}{fmtSvcKey k}@{a}"
   s!"now={s.loop.now} outs=[{" ; ".intercalate outs}] ready=[{",".intercalate ready}] timers=[" ++
     ",".intercalate (timers.map fun (d, q, n) => s!"{q}@{d}:{n}") ++ "]" ++
-    s!" found=[{";".intercalate found}] subs=[{" ".intercalate subs}] slog=[{",".intercalate slog}]"
+    s!" found=[{";".intercalate found}] subs=[{" ".intercalate subs}] slog=[{",".intercalate slog}]" ++
+    s!" tx=[{",".intercalate ((s.sendLog.drop txFrom).map fun (d, f, i) => s!"{fmtDest d}:{if f then 1 else 0}:{i}")}]"
 
 abbrev Sessions := List (String × Stack)
 
@@ -420,23 +421,23 @@ def handleStack (ss : Sessions) (toks : List String) : Option (Sessions × Strin
     let s ← sessGet ss name
     let (x, []) ← pInput r | none
     let s' := s.applyInput x
-    pure (sessSet ss name s', "ok " ++ fmtState s' s.outs.length s.storeLog.length)
+    pure (sessSet ss name s', "ok " ++ fmtState s' s.outs.length s.storeLog.length s.sendLog.length)
   | ["stk.run", name] => do
     let s ← sessGet ss name
     match s.step .run with
-    | some s' => pure (sessSet ss name s', "ok " ++ fmtState s' s.outs.length s.storeLog.length)
+    | some s' => pure (sessSet ss name s', "ok " ++ fmtState s' s.outs.length s.storeLog.length s.sendLog.length)
     | none => pure (ss, "disabled")
   | ["stk.fire", name, q] => do
     let s ← sessGet ss name
     let q ← q.toNat?
     match s.step (.fire q) with
-    | some s' => pure (sessSet ss name s', "ok " ++ fmtState s' s.outs.length s.storeLog.length)
+    | some s' => pure (sessSet ss name s', "ok " ++ fmtState s' s.outs.length s.storeLog.length s.sendLog.length)
     | none => pure (ss, "disabled")
   | ["stk.adv", name, t] => do
     let s ← sessGet ss name
     let t ← t.toNat?
     match s.step (.adv t) with
-    | some s' => pure (sessSet ss name s', "ok " ++ fmtState s' s.outs.length s.storeLog.length)
+    | some s' => pure (sessSet ss name s', "ok " ++ fmtState s' s.outs.length s.storeLog.length s.sendLog.length)
     | none => pure (ss, "disabled")
   | _ => none
 
